@@ -59,6 +59,10 @@ struct PoliciesHeterGetEventValue {
 	static int getEvent(EventStruct e, int) { return e.id; }
 	using ArgumentPassingMode = eventpp::ArgumentPassingIncludeEvent;
 };
+// predicates callable with several prototypes: processIf has to examine the events of every one of them (rule C14.Q2 knows
+// the expected prototype indices of these two: PredAll -> all of PL, PredEnds -> {0, 3})
+struct PredAll { template <typename ...A> bool operator() (A && ...) const { return true; } };
+struct PredEnds { bool operator() () const { return true; } bool operator() (const std::string &) const { return true; } };
 struct PoliciesHeterSingle { using Threading = eventpp::SingleThreading; };
 
 void useHeter()
@@ -107,6 +111,13 @@ void useHeter()
 		d.dispatch(1, 2); d.dispatch(1);
 	}
 	{
+		using D = eventpp::HeterEventDispatcher<int, eventpp::HeterTuple<void (int), void ()>, PoliciesHeterTwoMixins>;
+		D d;
+		d.appendListener(1, [](int) {}); d.appendListener(1, []() {});
+		auto fh = d.appendFilter([](int &) -> bool { return true; }); (void)fh;
+		d.dispatch(1, 2); d.dispatch(1);
+	}
+	{
 		using Q = eventpp::HeterEventQueue<int, PL>;
 		exerciseHeterDispatcher<Q>();
 		Q q;
@@ -117,6 +128,7 @@ void useHeter()
 		(void)q.processIf([](int, const std::string &) { return true; });
 		(void)q.processIf([](const Payload &) { return true; });
 		(void)q.processIf([](const std::string &) { return true; });
+		(void)q.processIf(PredAll()); (void)q.processIf(PredEnds());
 		q.wait(); (void)q.waitFor(std::chrono::milliseconds(1));
 		q.dispatch(1, 2, "x");
 		Q c(q); Q m(std::move(c)); c = q; m = std::move(c);
